@@ -7,7 +7,7 @@ import logging
 import random
 import re
 
-from sfv.framework import REPO, Ctx, Property
+from sfv.framework import Inconclusive, REPO, Ctx, Property
 from sfv.rt.fakeslurm import TERMINAL, CellProxy, FakeInner, FakeSlurm, VirtualTTLCell
 from sfv.rt.loop import run_controlled
 from sfv.translate import queueguards
@@ -107,7 +107,7 @@ def run_case(case: dict) -> dict:
         tasks = [asyncio.create_task(one(i, j["start"]), name=f"run{i}") for i, j in enumerate(case["jobs"])]
         if case["undeploy"] is not None:
             tasks.append(asyncio.create_task(und(case["undeploy"]["after"]), name="undeploy"))
-        done, pending = await asyncio.wait(tasks, timeout=(4000 * unit if case["virtual"] else 150))
+        done, pending = await asyncio.wait(tasks, timeout=(4000 * unit if case["virtual"] else case.get("wall", 150)))
         if pending:
             out["hang"] = True
             out["pending"] = sorted(t.get_name() for t in pending)
@@ -116,7 +116,7 @@ def run_case(case: dict) -> dict:
         out["final_scheduled"] = sorted(conn._scheduled_jobs)
 
     try:
-        run_controlled(main, case["lseed"], timeout=(None if case["virtual"] else 200), virtual_time=case["virtual"])
+        run_controlled(main, case["lseed"], timeout=(None if case["virtual"] else case.get("wall", 150) + 50), virtual_time=case["virtual"])
     except TimeoutError:
         out["hang"] = True
     out["log"] = slurm.log
@@ -234,6 +234,18 @@ class C27(Property):
     # --------------------------------------------------------------------------------------------
     def _check_case(self, ctx: Ctx, case: dict, lines_acc: list, meta_acc: list) -> None:
         res = run_case(case)
+        if res["hang"] and not case["virtual"]:
+            # a WALL-CLOCK bound elapsed (real-clock cases only; the virtual-time cases count ticks): never a verdict by itself — re-run the
+            # case alone with 5x the bound; completes => "slow under load"; no budget for that => inconclusive, not a violation
+            need = 5 * case.get("wall", 150) + 60
+            if ctx.time_left() < need:
+                raise Inconclusive(f"real-clock case {case['idx']} hit its {case.get('wall', 150)}s bound and the remaining budget "
+                                   f"({ctx.time_left():.0f}s) does not allow the confirmation run ({need}s)")
+            res2 = run_case(dict(case, wall=5 * case.get("wall", 150)))
+            if not res2["hang"]:
+                ctx.count("slow-under-load")
+                ctx.notes.append(f"slow under load: real-clock case {case['idx']} hit its bound and completed when re-run with 5x the bound")
+            res = res2
         log = res["log"]
         n_und = case["undeploy"] is not None
         shape = (case["n"], n_und, tuple(t[0] for t in res["trace"]))
@@ -246,7 +258,8 @@ class C27(Property):
         cancelled = {j for e in log if e[1] == "scancel" for j in e[3]}
         # (P3) termination
         if res["hang"]:
-            ctx.fail("run:hang", f"not finished after 4000 ticks although every job leaves the queue: pending {res.get('pending')}", replay)
+            ctx.fail("run:hang", f"not finished after {'4000 ticks' if case['virtual'] else 'the wall-clock bound, confirmed by a re-run with 5x the bound,'} "
+                                 f"although every job leaves the queue: pending {res.get('pending')}", replay)
         # (P1) finished only after left, with the job's own record
         for i, r in res["results"].items():
             jid = res["owner"].get(f"run{i}")
@@ -298,6 +311,9 @@ class C27(Property):
         lines, expect = protocol(case, res)
         lines_acc += lines
         meta_acc += [(case, l, e) for l, e in zip(lines, expect)]
+
+    quick_budget_s = 1500        # room for one confirmation re-run of a real-clock case that hit its wall-clock bound
+    thorough_budget_s = 4000
 
     def explore(self, ctx: Ctx) -> None:
         rng = ctx.rng
